@@ -4,7 +4,7 @@
 //! trusted: env: secp256k1 is uninterpreted: secret keys, public keys and scalars carry abstract ids; pt(k) is the public key of k, smul / sadd and pmul / padd the tweak operations on secret and public keys, ser the 33-byte serialization, scalar_of the scalar read from 32 bytes, key_bytes the bytes of a secret key; Sha256's engine is a stub that records the concatenation of its inputs in a ghost field, Sha256::from_engine(..).to_byte_array() is the uninterpreted sha256_spec of those; `.expect(msg)` on the tweak results is vstd's Result::expect
 //! trusted: axioms (external_body proof fns, the group homomorphism pt): pt(smul(k, t)) == pmul(pt(k), t); pt(sadd(k, t)) == padd(pt(k), pt_of_scalar(t)); scalar_of(key_bytes(k)) names k itself (pt_of_scalar(scalar_of(key_bytes(k))) == pt(k))
 //! assume: the operations the source `expect`s never to fail do not fail: a SHA256 output is a valid scalar, multiplying a key by a hash succeeds, and the final addition is not the point at infinity (probability about 2^-128 each; the source says the same in its expect messages)
-//! trusted: env (signer): InMemorySigner / ChannelTransactionParameters / ChannelPublicKeys are field skeletons of the real structs; DelayedPaymentKey::from_basepoint, get_revokeable_redeemscript, SighashCache::p2wsh_signature_hash and sign_with_aux_rand are external_body with uninterpreted results (delayed_key_of, revokeable_script, sighash_of, ecdsa_sign); R8: `hash_to_message!(&X.unwrap()[..])` (a macro over Message::from_digest_slice) is written `hash_to_message!(X.unwrap().as_digest())` and the unit defines the macro as the function to_message (the message is the sighash); the message of `assert!(c, "msg")` is dropped by the extractor (the assertion stays as an obligation); R4: module prefixes chan_utils:: / sighash:: stripped; the trait methods are verified as inherent methods of InMemorySigner; sign_justice_revoked_htlc: HtlcKey::from_basepoint and get_htlc_redeemscript_with_explicit_keys external_body (uninterpreted derived_key / htlc_script)
+//! trusted: env (signer): InMemorySigner / ChannelTransactionParameters / ChannelPublicKeys are field skeletons of the real structs; DelayedPaymentKey::from_basepoint, get_revokeable_redeemscript, SighashCache::p2wsh_signature_hash and sign_with_aux_rand are external_body with uninterpreted results (delayed_key_of, revokeable_script, sighash_of, ecdsa_sign); R8: `hash_to_message!(&X.unwrap()[..])` (a macro over Message::from_digest_slice) is written `hash_to_message!(X.unwrap().as_digest())` and the unit defines the macro as the function to_message (the message is the sighash); the message of `assert!(c, "msg")` is dropped by the extractor (the assertion stays as an obligation); R4: module prefixes chan_utils:: / sighash:: stripped; R17: the parameters the contract names are bound by position (a parameter renamed in the source is alpha-renamed back); the trait methods are verified as inherent methods of InMemorySigner; sign_justice_revoked_htlc: HtlcKey::from_basepoint and get_htlc_redeemscript_with_explicit_keys external_body (uninterpreted derived_key / htlc_script)
 //! assume: the signer's revocation_base_key is the secret of the holder_pubkeys.revocation_basepoint in the channel parameters it is given (how channel keys are set up)
 use vstd::prelude::*;
 macro_rules! hash_to_message { ($slice: expr) => { to_message($slice) } }
@@ -168,6 +168,11 @@ pub open spec fn revoked_htlc_script(p: ChannelTransactionParameters, htlc: HTLC
 impl InMemorySigner {
 //@extract lightning/src/sign/mod.rs :: impl EcdsaChannelSigner for InMemorySigner :: fn sign_justice_revoked_output
 //@strip chan_utils sighash
+//@param 1 channel_parameters
+//@param 2 justice_tx
+//@param 3 input
+//@param 4 amount
+//@param 5 per_commitment_key
 //@rw R5
     secp_ctx: &Secp256k1<secp256k1::All>,
 //@with
@@ -196,6 +201,12 @@ impl InMemorySigner {
 //@end
 //@extract lightning/src/sign/mod.rs :: impl EcdsaChannelSigner for InMemorySigner :: fn sign_justice_revoked_htlc
 //@strip chan_utils sighash
+//@param 1 channel_parameters
+//@param 2 justice_tx
+//@param 3 input
+//@param 4 amount
+//@param 5 per_commitment_key
+//@param 6 htlc
 //@rw R5
     secp_ctx: &Secp256k1<secp256k1::All>,
 //@with
